@@ -54,7 +54,22 @@ func runSyncer(s *core.Sim, tier string, liveness bool) RunInfo {
 			Sample: map[string]any{"trust_range": simhdr.Cfg.TrustRange, "chain_age": age, "sync_from_height": tailH, "ops": hist, "getter_calls": len(w.G.CallsCopy())}}
 	}
 	defer w.teardown()
-	p := store.Parameters{WriteBatchSize: core.Pick(s.Tape, "batch", sizeKnob), StoreCacheSize: 64, IndexCacheSize: 64}
+	// the Store under the Syncer: flavour, small caches, and (sometimes) every datastore
+	// operation a park point with occasional latency, so that the store's own goroutine
+	// interleaves with the sync loop and the gossip handler as well
+	w.Flav = core.Pick(s.Tape, "flavour", []string{"plain", "ctx"})
+	if s.Tape.Coin("park-disk", 1, 3) {
+		w.Disk.Park = true
+		drng := s.Sub("disk-latency")
+		w.Disk.Latency = func(op string) time.Duration {
+			if drng.Coin("stall", 1, 10) {
+				s.Fault("disk-latency-stall")
+				return time.Duration(1+drng.Draw("stall-ms", 2000)) * time.Millisecond
+			}
+			return 0
+		}
+	}
+	p := store.Parameters{WriteBatchSize: core.Pick(s.Tape, "batch", sizeKnob), StoreCacheSize: core.Pick(s.Tape, "cache", cacheKnob), IndexCacheSize: core.Pick(s.Tape, "icache", cacheKnob)}
 	if err := w.OpenStore(p); err != nil {
 		s.Aborted = "store start: " + err.Error()
 		return info()
@@ -139,7 +154,7 @@ func runSyncer(s *core.Sim, tier string, liveness bool) RunInfo {
 			return false
 		}
 		pending = nil
-		s.Quiesce(time.Second)
+		w.waitSyncIdle(30 * time.Minute)
 		if s.Failed() {
 			return false
 		}
@@ -169,7 +184,7 @@ func runSyncer(s *core.Sim, tier string, liveness bool) RunInfo {
 				sh = h.Height()
 			}
 		})
-		s.Settle(time.Minute, t)
+		s.Settle(30*time.Minute, t)
 		if sh < lastStoreHead {
 			s.Violate("store-head-went-back", nil, "[%s] store head %d -> %d", why, lastStoreHead, sh)
 			return false
@@ -340,8 +355,9 @@ func runSyncer(s *core.Sim, tier string, liveness bool) RunInfo {
 			s.Violate("valid-head-refused", nil, "with a healthy honest getter the valid head %d was refused: %v (accepted so far %d, trust range %d) ops=%v", target.Height(), derr, accepted, simhdr.Cfg.TrustRange, hist)
 			return info()
 		}
+		w.waitSyncIdle(30 * time.Minute)
 		t = s.Go("store-head", func() { _ = w.St.Sync(ctx); sh, _ = w.St.Head(ctx) })
-		s.Settle(time.Minute, t)
+		s.Settle(30*time.Minute, t)
 		state := w.Sy.State()
 		if sh == nil || sh.Height() < want {
 			got := uint64(0)
